@@ -185,7 +185,13 @@ impl PrettyParseError {
     pub fn from_parse_error(err: &ParseError, text: &str, source_file: Option<&str>) -> Self {
         let target_line = IndexedStringLineIterator::new(text)
             .find(|l| l.start_offset <= err.position && l.end_offset >= err.position)
-            .unwrap();
+            .unwrap_or(IndexedStringLine {
+                // An empty text has no lines at all: report the error on an empty first line.
+                s: "",
+                lineno: 0,
+                start_offset: 0,
+                end_offset: 0,
+            });
         let character_position = target_line
             .s
             .char_indices()
